@@ -53,7 +53,10 @@ pub struct Connection {
     pub transaction_state: TransactionState,
     pub state: ConnectionState,
     pub is_monitoring: bool,
+    /// ghost: the frames handed to this connection's write buffer (Connection::send_frame)
+    pub out: ConnOut,
 }
+pub struct ConnOut { pub sent: Ghost<Seq<RespFrame>> }
 
 impl RespFrame {
     /// ASSUMED CONTRACT (resp.rs RespFrame::ok, proved in c07_transactions): +OK
